@@ -1,4 +1,36 @@
 /-
-C03 — placeholder (theorems follow)
+C03 — gradients.  The derivative oracle of the harness evaluates the equation system over the dual
+numbers K[ε]/(ε²).  Here: the dual numbers over the Real carrier are a commutative semiring
+(`C11.dualK_laws`), so Kleene iteration over them is — cell by cell — the sum over all derivations of
+the *dual* weights: its value part is the ordinary sum-product and its ε-part is the sum over
+derivations of the derivative of the derivation's weight (product rule = definition of `dualK.mul`).
 -/
 import FggsModel.Sem
+import FggsProofs.Props.C01
+import FggsProofs.Props.C11
+
+namespace C03
+open Fggs Fggs.Sem
+
+/-- Kleene iteration over dual numbers = sum over derivations of dual weights (all depths n) -/
+theorem dual_kleene_eq_derivSum (G : Grammar (C11.RealK × C11.RealK))
+    (hty : ∀ r ∈ G.rules, r.lhs < G.nts.length ∧
+        G.shapeOf (r.ext.map (fun v => r.nodes[v]?.getD 0)) = G.shapeOf (G.nts[r.lhs]?.getD []) ∧
+        ∀ e ∈ r.edges, e.1 < G.T + G.nts.length ∧
+          (e.2.map (fun v => r.nodes[v]?.getD 0)) = G.labelType e.1 ∧ ∀ v ∈ e.2, v < r.nodes.length)
+    (n X : Nat) (hX : X < G.nts.length) (a : List Nat) (ha : a ∈ assigns (G.shapeOf (G.nts[X]?.getD []))) :
+    C01.valCell C11.dualK G (kleene C11.dualK G n) X a
+      = C11.dualK.sum ((derivs G n X).map (fun d => derivCell C11.dualK G n d a)) :=
+  C01.kleene_cell_eq_derivSum C11.dualK C11.dualK_laws G hty n X hX a ha
+
+/-- the value part of the dual computation is the ordinary sum-product (so differentiating does not
+disturb the value) -/
+theorem dual_value_part (G : Grammar (C11.RealK × C11.RealK)) (n : Nat) :
+    kleene C11.realK (C11.mapG (fun x => x.1) G) n = C11.mapVal (fun x => x.1) (kleene C11.dualK G n) :=
+  C11.kleene_map_hom C11.dualK C11.realK (fun x => x.1) C11.dual_fst_hom G n
+
+/-- product rule, as computed: `(a + a'ε)(b + b'ε) = ab + (ab' + a'b)ε` -/
+theorem dual_mul_eps (a b : C11.RealK × C11.RealK) :
+    (C11.dualK.mul a b).2 = C11.realK.add (C11.realK.mul a.1 b.2) (C11.realK.mul a.2 b.1) := rfl
+
+end C03
